@@ -107,6 +107,13 @@ EXTRA = {
 }
 for _k, _v in EXTRA.items():
     C[_k]["text"] += _v
+EXTRA2 = {'C01': ' Rounds 4-5: size lines of exactly 128 bytes.', 'C02': ' Rounds 4-5: size lines with more digits than a 64-bit number in the corruption sweep.', 'C03': " Rounds 4-5: coding names that merely contain 'chunked', Content-Encoding: chunked, control bytes in Content-Length values.", 'C04': ' Rounds 4-5: request kinds (POST with a body, via an http proxy, following left on for not-followed 3xx), coded bodies that are absent or broken when the head is complete.', 'C05': ' Rounds 4-5: max_headers raised beyond what the header map can hold; every error is printed; long multi-byte refusal texts; odd Content-Type parameters; endless trailer sections.', 'C06': ' Rounds 4-5: framing cut while the coded stream is complete; frame shorter than the stream; redirect statuses with following off; exact 64 KiB chunks; stored blocks that look like zlib headers; codings not last in their list.', 'C07': ' Rounds 4-5: every body kind prepared once and sent twice.', 'C09': " Rounds 4-5: Locations with '://' inside, the largest max_redirections values.", 'C10': ' Rounds 4-5: absolute-form targets carry neither credentials nor fragment; network-path hops; typed multipart files.', 'C11': ' Rounds 4-5: digit-leading host labels; proxy values with an upper-case scheme.', 'C12': ' Rounds 4-5: refusals on a connection that stays open; session-level headers; same-host scheme upgrades with per-scheme proxies (lab).', 'C13': ' Rounds 4-5: overall timeouts of 5..600 microseconds; the race loser after the response is dropped (known finding).', 'C14': ' Rounds 4-5: a SAN-less leaf under a CA named like the host; hosts with a leading dot.', 'C16': ' Rounds 4-5: auth helpers replace inherited Authorization; max_redirections(0) together with follow_redirects(false).', 'C17': ' Rounds 4-5: short deadlines with refusing addresses ahead; 4-5 unresponsive addresses; refusing then unresponsive then accepting; a late accept.', 'C18': ' Rounds 4-5: more media types; part D (json() under every way of making the charset known; requests carrying a Content-Type of their own).', 'C19': ' Rounds 4-5: complete 64 KiB / 128 KiB chunks followed by a pause with larger caller buffers.'}
+for _k, _v in EXTRA2.items():
+    C[_k]["text"] += _v
+
+EXTRA3 = {'C01': ' Round 6: the coding name in upper and mixed case.', 'C04': ' Round 6: Transfer-Encoding values that are not acted on (identity, compress, unknown, parameters, empty, a trailing comma, a second line) are hidden all the same; a head of 1.1 MB within every stated limit.', 'C05': ' Round 6: a worker that stops answering is itself a verdict (hang watchdog).', 'C06': ' Round 6: a complete framed body behind which the server keeps the connection open: the end is reported without asking for more.', 'C07': " Round 6: empty caller-supplied User-Agent / Accept values; credentials whose base64 form needs '+' and '/'; multipart bodies decoded back to the parts the caller added.", 'C08': " Round 6: a literal '@' in path and query behind the authority.", 'C18': ' Round 6: Content-Type parameters that are not a charset.'}
+for _k, _v in EXTRA3.items():
+    C[_k]["text"] += _v
 
 PENDING = {
 }
